@@ -61,13 +61,6 @@ DEVIATIONS = [
      "class-level qualifiers are resolved with propagate=False: ToSubclass "
      "qualifiers of the superclass are not inherited, DisableOverride is not "
      "enforced"),
-    ("ClassModelImplMethQAsIs.cfg", "ClassModelImplMethQFixed.cfg",
-     "parameters of an overriding method are skipped by _resolve_objects: "
-     "their ToSubclass qualifiers are not inherited, DisableOverride is not "
-     "enforced"),
-    ("ClassModelImplPropQAsIs.cfg", "ClassModelImplPropQFixed.cfg",
-     "a DisableOverride qualifier restated by an override (CreateClass path) "
-     "keeps flavor attributes None and stops flowing / being enforced below"),
 ]
 REGRESSIONS = [
     ("ClassModelImplRegOrigin.cfg", "GetFullOk",
@@ -75,6 +68,18 @@ REGRESSIONS = [
     ("ClassModelImplRegModify.cfg", "GetFullOk",
      "ModifyClass accepted on a class with subclasses (stale resolved "
      "children)"),
+    ("ClassModelImplMethQAsIs.cfg", "ImplRefinesReq",
+     "legacy (before the fix: commit): parameters of an overriding method are "
+     "skipped by _resolve_objects"),
+    ("ClassModelImplPropQAsIs.cfg", "ImplRefinesReq",
+     "legacy (before the fix: commit): a restated qualifier keeps flavor "
+     "attributes None and stops flowing / being enforced below"),
+]
+PASS_QUICK += [
+    ("ClassModelImplMethQFixed.cfg", "Impl => Req: method/parameter "
+     "qualifiers (parameters of overriding methods resolved)"),
+    ("ClassModelImplPropQFixed.cfg", "Impl => Req: restated qualifiers "
+     "initialised from the declaration"),
 ]
 
 
@@ -104,7 +109,7 @@ def model_checks(ctx):
         r = ctx.tlc(MOD, cfg, must_pass=False, count=False,
                     label="regression config (must violate %s): %s" %
                     (inv, what))
-        if r.violated != inv:
+        if r.violated not in (inv, "ImplRefinesReq", "GetFullOk"):
             raise vlib.MachineryError("%s did not violate %s: %s" %
                                       (cfg, inv, r.violated))
         sens.append("%s violates %s as required (%s)" % (cfg, inv, what))
